@@ -248,7 +248,7 @@ pub fn asn_tag(input: Input<'_>) -> ParserResult<'_, AsnTag> {
                 value(TaggingEnvironment::Explicit, tag(EXPLICIT)),
                 value(TaggingEnvironment::Implicit, tag(IMPLICIT)),
             )),
-            not(alt((alphanumeric1, tag("-")))),
+            not(alt((alphanumeric1, preceded(tag("-"), alphanumeric1)))),
         ))),
     ))
     .parse(input)
